@@ -150,19 +150,6 @@ def answer (S : Spec) (ws : List String) : String :=
         | none => "none"
       | _, _ => "none"
     | none => "bad-op"
-  | ["load", _strict, h] =>
-    -- lexer level: the first tokenizer error of the buffer (kind and line), `ok` if there is none
-    match bytesOfHex h with
-    | some b =>
-      match (Lex.lex b).2.1 with
-      | some (l, e) =>
-        let k := match e with
-          | .incompleteData => "incompleteData" | .invalidElement => "invalidElement"
-          | .invalidProcessingInstruction => "invalidProcessingInstruction" | .invalidXmlHeader => "invalidXmlHeader"
-          | .invalidComment => "invalidComment"
-        s!"lexerr {k}@{l}"
-      | none => "ok"
-    | none => "bad-op"
   | ["parse_int", w, h] =>
     match intTyOf w, bytesOfHex h with
     | some T, some b => match CData.parseInteger T b with
@@ -297,6 +284,29 @@ def worldEnv : W.Env where
   nmDefinitionRef := (Hash.fromBytesA hashParams Elem.table elemArr [68, 69, 70, 73, 78, 73, 84, 73, 79, 78, 45, 82, 69, 70]).getD 0
   latest := versionTable.latest
   nmDest := realSpec.atDest
+  elemOf b := Hash.fromBytesA hashParams Elem.table elemArr b
+  attrOf b := Hash.fromBytesA hashParams Attr.table attrArr b
+  verOfFile b := versionTable.parse (b.map (·.toNat))
+  fileOfVer v := ((versionTable.fileNameOf v).getD []).map UInt8.ofNat
+  atXmlns := (Hash.fromBytesA hashParams Attr.table attrArr "xmlns".toUTF8.toList).getD 0
+  atXmlnsXsi := (Hash.fromBytesA hashParams Attr.table attrArr "xmlns:xsi".toUTF8.toList).getD 0
+  atSchemaLocation := (Hash.fromBytesA hashParams Attr.table attrArr "xsi:schemaLocation".toUTF8.toList).getD 0
+
+/-- requests that need the environment of the world model (names, validators) -/
+def answer2 (S : Spec) (ws : List String) : String :=
+  match ws with
+  | ["load", strict, h] =>
+    -- the whole parser (tokenizer + `parse_arxml`): kind and line of the error, or the warnings of a successful run
+    match bytesOfHex h with
+    | some b =>
+      let r := PM.runParser S worldEnv (strict == "1") b 0 ((worldEnv.elemOf [65, 85, 84, 79, 83, 65, 82]).getD 0)
+      match r.1 with
+      | .error e => W.showErr e
+      | .ok _ =>
+        let ws := if r.2.warnings.isEmpty then "-" else ",".intercalate (r.2.warnings.map fun e => s!"{e.kind}@{e.line}")
+        s!"ok w{r.2.warnings.length} {ws}"
+    | none => "bad-op"
+  | _ => answer S ws
 
 def strBytes (s : String) : Bytes := s.toUTF8.toList
 
@@ -317,7 +327,7 @@ partial def loop (S : Spec) (w : W.World) (h : IO.FS.Stream) (out : IO.FS.Stream
     out.putStrLn ans
     loop S w' h out
   | none =>
-    out.putStrLn (answer S ws)
+    out.putStrLn (answer2 S ws)
     loop S w h out
 
 def main : IO Unit := do
